@@ -305,12 +305,24 @@ def run(eng, R):
                 notif = [n for n in g.stmt_nodes() if has_notify_self(n)]
                 ok = bool(sets) and bool(notif)
                 why = "does not set _stale and notify parents"
+                second = False
                 if ok:
                     for n in sets + notif:
                         nf = common.conj_normal_form(common.guard_conditions(f.node, n.stmt))
-                        if nf != {("stale", False), ("frozen", False)}:
-                            ok = False
-                            why = "%s is guarded by %s, expected {not stale, not frozen}" % (norm_stmt(n.stmt), sorted(nf))
+                        if nf == {("stale", False), ("frozen", False)}:
+                            continue
+                        # a node that is already stale still tells parents that are not stale (a failed update under a Fallback leaves such a pair behind)
+                        extra = {a for a in nf if a not in (("stale", True), ("frozen", False))}
+                        if n in notif and ("stale", True) in nf and ("frozen", False) in nf and len(extra) == 1 and \
+                                "any((not _p.stale for _p in self.iter_parents()))" in "".join(x for x, pol in extra if pol).replace("any(not ", "any((not ").replace("_parents()))", "_parents()))"):
+                            second = True
+                            continue
+                        ok = False
+                        why = "%s is guarded by %s, expected {not stale, not frozen}" % (norm_stmt(n.stmt), sorted(nf))
+                    if ok and cls.name == "NodeBase":
+                        R.ob("B4a", f.qualname + ":stale node, fresh parent", second, eng.where(f),
+                             "%s returns early for every stale node: a node left stale by a failed update (its Fallback parent went on with an alternative) swallows the "
+                             "notification when its input is repaired, and the Fallback keeps the old value" % f.qualname)
                     # value of the assignment
                     for n in sets:
                         if not (isinstance(n.stmt.value, ast.Constant) and n.stmt.value.value is True):
